@@ -112,7 +112,7 @@ def dump_with_faults(case, d, kill_at):
     TP.os = OSMod()
     try:
         with quiet():
-            Flow(*(sources(case) + [DF.dump_to_path(d, **dump_kw(case))])).process()
+            Flow(*(sources(case) + [DF.dump_to_path(d, **dump_kw(case))] + later_steps(case))).process()
         return {'ops': ops}
     except Exception as e:
         return {'ops': ops, 'error': type(e).__name__ + ': ' + str(e)[:200]}
@@ -125,6 +125,19 @@ def sources(case):
         if pth is not None:
             links.append(DF.update_resource('res_%d' % (i + 1), path=pth))
     return links
+
+
+def later_steps(case):
+    """a step after the dumper that stops reading every resource after one row (the dump must be complete all the same)"""
+    if not case.get('stopper'):
+        return []
+
+    def take1(rows):
+        for i, r in enumerate(rows):
+            if i >= 1:
+                break
+            yield r
+    return [take1]
 
 
 def dump_kw(case):
@@ -154,6 +167,8 @@ def gen_cases(rng, tier):
              (None, ['data\\r 1.csv', 'sub/dir/r2.csv']), (None, ['cafe\u0301.csv', 'd\u0061\u0308ta/\u00e9.csv'])]
     if tier == 'thorough':
         extra += [({'resource-bytes': None}, ['a/b.csv', None]), ({'resource-rowcount': None, 'datapackage-bytes': None}, ['x\\y\\z.csv', 'x/y.csv'])]
+    cases.append({'kind': 'crash', 'pkg': [[{'a': 10 * i + j, 's': 'é%d' % j} for j in range(n)] for i, n in enumerate([3, 2])], 'format': 'csv',
+                  'shape': [3, 2], 'chunk': 48, 'stopper': True})
     for k, (counters, paths) in enumerate(extra):
         fmt = 'csv' if k % 2 == 0 else 'json'
         pkg = [[{'a': 10 * i + j, 's': 'é%d' % j} for j in range(n)] for i, n in enumerate([2, 1])]
@@ -224,12 +239,13 @@ def run_impl(case):
                     raise RuntimeError('injected downstream failure')
                 yield r
         return f
-    points = [(ri, k) for ri, rows in enumerate(case['pkg']) for k in range(len(rows))]
+    # (with a later step that stops reading early the injected failure positions would not be reached: none then)
+    points = [] if case.get('stopper') else [(ri, k) for ri, rows in enumerate(case['pkg']) for k in range(len(rows))]
     for ri, k in points:
         d = os.path.join(base, 'x%d_%d' % (ri, k))
         try:
             with quiet():
-                Flow(*(sources(case) + [DF.dump_to_path(d, **dump_kw(case)), raising_step(ri, k)])).process()
+                Flow(*(sources(case) + [DF.dump_to_path(d, **dump_kw(case)), raising_step(ri, k)] + later_steps(case))).process()
             raised = False
         except Exception:
             raised = True
